@@ -151,7 +151,7 @@ def audit(ctx, pid, extra_modules=()):
     problems = []
     used = set()
     ok_names = set()
-    for m in re.finditer(r"'([^']+)' (depends on axioms: \[([^\]]*)\]|does not depend on any axioms)", out.replace("\n", " ")):
+    for m in re.finditer(r"'(\S+?)' (depends on axioms: \[([^\]]*)\]|does not depend on any axioms)", out.replace("\n", " ")):
         nm = m.group(1)
         axs = set(a.strip() for a in (m.group(3) or "").split(",") if a.strip())
         used |= axs
